@@ -51,40 +51,45 @@ theorem toSecrets_sum_of_lt {l : List Nat} (h : ∀ x ∈ l, x < N) : (toSecrets
     · subst h0; simp [ih']
     · simp [h0, ha, ih']
 
-/-- `sum_kernel_offsets(positive, vec![])` in closed form -/
+/-- **`blind_sum_or_zero` never fails**: for all lists of scalars it is the sum modulo the group
+order, zero included — the second `blind_sum` (with `ONE_KEY`) gives exactly `ONE_KEY` whenever the
+first one failed, so the `Err(e)` branch of the code is unreachable. -/
+theorem blindSumOrZero_eq (pos neg : List Nat) : blindSumOrZero pos neg = .ok (scalarSum pos neg) := by
+  unfold blindSumOrZero secpBlindSum
+  by_cases z : scalarSum pos neg = 0
+  · have h1 : scalarSum (pos ++ [1]) neg = 1 := by
+      unfold scalarSum at z ⊢
+      simp only [sum_append, sum_cons, sum_nil, Nat.add_zero]
+      simp only [N] at *
+      omega
+    simp [z, h1]
+  · simp [z]
+
+theorem scalarSum_nil (pos : List Nat) : scalarSum pos [] = pos.sum % N := by
+  simp [scalarSum]
+
+/-- `sum_kernel_offsets(positive, vec![])` in closed form: never an error; the "positive empty ⇒
+zero" shortcut is not observable (the empty sum is zero) -/
 theorem sumKernelOffsets_nil (l : List Nat) :
-    sumKernelOffsets l [] =
-      if toSecrets l = [] then .ok 0
-      else if (toSecrets l).sum % N = 0 then .error .secp else .ok ((toSecrets l).sum % N) := by
-  unfold sumKernelOffsets blindSum
-  simp only [toSecrets, filter_nil, map_nil, sum_nil, Nat.add_zero, isEmpty_iff]
-  rfl
+    sumKernelOffsets l [] = .ok ((toSecrets l).sum % N) := by
+  have e : toSecrets ([] : List Nat) = [] := rfl
+  simp only [sumKernelOffsets, e, blindSumOrZero_eq, scalarSum_nil, isEmpty_iff]
+  by_cases h : toSecrets l = []
+  · simp [h]
+  · simp [h]
 
 theorem sumKernelOffsets_perm {l₁ l₂ : List Nat} (p : l₁ ~ l₂) :
     sumKernelOffsets l₁ [] = sumKernelOffsets l₂ [] := by
   have q : toSecrets l₁ ~ toSecrets l₂ := p.filter _
   rw [sumKernelOffsets_nil, sumKernelOffsets_nil, q.sum_nat]
-  by_cases h : toSecrets l₁ = []
-  · have : toSecrets l₂ = [] := (h ▸ q).symm.eq_nil
-    simp [h, this]
-  · have : toSecrets l₂ ≠ [] := fun e => h ((e ▸ q).eq_nil)
-    simp [h, this]
 
-/-- what a successful offset sum looks like -/
+/-- what an offset sum looks like -/
 theorem sumKernelOffsets_ok {l : List Nat} {s : Nat} (h : sumKernelOffsets l [] = .ok s) :
-    s < N ∧ s = (toSecrets l).sum % N ∧ (s = 0 ↔ toSecrets l = []) := by
+    s < N ∧ s = (toSecrets l).sum % N := by
   rw [sumKernelOffsets_nil] at h
   have hN : 0 < N := by decide
-  by_cases e : toSecrets l = []
-  · rw [if_pos e] at h
-    cases h
-    simp [e, hN]
-  · rw [if_neg e] at h
-    by_cases z : (toSecrets l).sum % N = 0
-    · rw [if_pos z] at h; cases h
-    · rw [if_neg z] at h
-      cases h
-      exact ⟨Nat.mod_lt _ hN, rfl, by simp [z, e]⟩
+  cases h
+  exact ⟨Nat.mod_lt _ hN, rfl⟩
 
 theorem toSecrets_singleton_of_lt {s : Nat} (h : s < N) : toSecrets [s] = if s = 0 then [] else [s] := by
   by_cases z : s = 0
@@ -107,33 +112,26 @@ theorem AllRel.length_eq {α β : Type} {R : α → β → Prop} {l₁ : List α
   | nil => rfl
   | cons _ _ ih => simp [ih]
 
-/-- **offset sums nest**: summing group sums is summing everything, including the zero
-shortcuts and the zero-sum error, provided every group sum exists -/
+/-- **offset sums nest**: summing group sums is summing everything (including the zero shortcuts
+and groups whose offsets cancel to zero) -/
 theorem sumKernelOffsets_groups {gs : List (List Nat)} {ss : List Nat}
     (h : AllRel (fun g s => sumKernelOffsets g [] = .ok s) gs ss) :
     sumKernelOffsets ss [] = sumKernelOffsets gs.flatten [] := by
-  have key : (toSecrets ss).sum % N = (toSecrets gs.flatten).sum % N ∧
-      (toSecrets ss = [] ↔ toSecrets gs.flatten = []) := by
+  have key : (toSecrets ss).sum % N = (toSecrets gs.flatten).sum % N := by
     induction h with
     | nil => simp [toSecrets]
     | @cons g s gs ss hg _ ih =>
-      obtain ⟨hlt, hs, hz⟩ := sumKernelOffsets_ok hg
+      obtain ⟨hlt, hs⟩ := sumKernelOffsets_ok hg
       have e1 : toSecrets (s :: ss) = toSecrets [s] ++ toSecrets ss := toSecrets_append [s] ss
       have e2 : toSecrets (g :: gs).flatten = toSecrets g ++ toSecrets gs.flatten := by
         rw [flatten_cons, toSecrets_append]
       rw [e1, e2, toSecrets_singleton_of_lt hlt]
-      constructor
-      · rw [sum_append, sum_append, Nat.add_mod, ih.1, Nat.add_mod (toSecrets g).sum]
-        congr 2
-        by_cases z : s = 0
-        · rw [if_pos z]; rw [z] at hs; simp [← hs]
-        · rw [if_neg z]; simp only [sum_cons, sum_nil, Nat.add_zero]; rw [← hs, Nat.mod_eq_of_lt hlt]
-      · rw [append_eq_nil_iff, append_eq_nil_iff, ih.2, ← hz]
-        by_cases z : s = 0 <;> simp [z]
-  rw [sumKernelOffsets_nil, sumKernelOffsets_nil, key.1]
-  by_cases e : toSecrets ss = []
-  · rw [if_pos e, if_pos (key.2.1 e)]
-  · rw [if_neg e, if_neg (fun e' => e (key.2.2 e'))]
+      rw [sum_append, sum_append, Nat.add_mod, ih, Nat.add_mod (toSecrets g).sum]
+      congr 2
+      by_cases z : s = 0
+      · rw [if_pos z]; rw [z] at hs; simp [← hs]
+      · rw [if_neg z]; simp only [sum_cons, sum_nil, Nat.add_zero]; rw [← hs, Nat.mod_eq_of_lt hlt]
+  rw [sumKernelOffsets_nil, sumKernelOffsets_nil, key]
 
 /-! ### `aggregate` -/
 
